@@ -53,8 +53,6 @@ func main() {
 		worker(os.Args[2])
 	case "verify":
 		verify(os.Args[2], os.Args[3])
-	case "probe":
-		probe()
 	default:
 		fmt.Fprintln(os.Stderr, "unknown sub-command", os.Args[1])
 		os.Exit(2)
